@@ -212,6 +212,12 @@ func genC02Late(ref core.CaseRef, r *rand.Rand) *evCase {
 	c.Grouped = c.Kind == "session" || r.Intn(2) == 0
 	c.MooMs = pick(r, []int64{0, 0, c.SizeMs / 2})
 	c.AlMs = pick(r, []int64{c.SizeMs, 3 * c.SizeMs})
+	if c.Kind == "tumbling" && r.Intn(3) == 0 {
+		c.AlMs = c.SizeMs / 2 // an allowance shorter than the window: a fired window expires while the next one is still open
+	}
+	if c.Kind == "session" && ref.Index%2 == 0 {
+		return genC02LateOlderSession(c, r)
+	}
 	keys := []any{"a", "b"}
 	if !c.Grouped {
 		keys = []any{nil}
@@ -224,6 +230,9 @@ func genC02Late(ref core.CaseRef, r *rand.Rand) *evCase {
 		t += int64(r.Intn(int(c.SizeMs))) + 1
 		if c.Kind == "session" && r.Intn(4) == 0 {
 			t += 2 * c.SizeMs
+		}
+		if c.Kind == "tumbling" && r.Intn(5) == 0 {
+			t = (t/c.SizeMs + 1) * c.SizeMs // exactly on a window boundary
 		}
 		id++
 		c.Rows = append(c.Rows, evRow{ID: id, TS: t, K: pick(r, keys), V: r.Intn(100)})
@@ -251,6 +260,40 @@ func genC02Late(ref core.CaseRef, r *rand.Rand) *evCase {
 		}
 	}
 	c.Tail = max + c.MooMs + c.AlMs + 10*c.SizeMs
+	c.buildSQL()
+	return c
+}
+
+// genC02LateOlderSession: two sessions of one key have both fired and are both still inside the allowance when a
+// late row arrives for the OLDER one (and then one for the newer one): each must be delivered again under its
+// own window_id with the row added.
+func genC02LateOlderSession(c *evCase, r *rand.Rand) *evCase {
+	T := c.SizeMs
+	c.Pattern, c.Feed, c.Grouped = "lateupdate_older_session", "step", true
+	c.AlMs = 8 * T
+	t0 := 10*T + int64(r.Intn(int(T)))
+	id := 0
+	add := func(ts int64, k string) {
+		id++
+		c.Rows = append(c.Rows, evRow{ID: id, TS: ts, K: k, V: r.Intn(100)})
+	}
+	var max int64
+	for m, n := 0, 1+r.Intn(3); m < n; m++ {
+		k, other := plainKeys[m%2], plainKeys[2]
+		add(t0, k)
+		add(t0+T/2, k) // session 1: [t0, t0+1.5T)
+		add(t0+3*T, k)
+		add(t0+3*T+T/3, k)                         // session 2: [t0+3T, t0+4.33T)
+		add(t0+7*T+int64(r.Intn(int(T/2))), other) // pushes the watermark past both
+		max = c.Rows[len(c.Rows)-1].TS
+		add(t0+T/4, k)     // late, inside session 1, inside the allowance
+		add(t0+3*T+T/4, k) // late, inside session 2
+		if r.Intn(2) == 0 {
+			add(t0+T/3, k) // a second late row for the older session
+		}
+		t0 = max + 12*T
+	}
+	c.Tail = max + c.MooMs + c.AlMs + 10*T
 	c.buildSQL()
 	return c
 }
